@@ -70,6 +70,10 @@ def addconn_race(ctx):
     if deep.get("_died") or not deep.get("complete", False):
         raise lib.Inconclusive("deep-backlog rounds died: %s" % deep.get("_stdout_tail"))
     ctx.log("deep backlogs: %d rounds, %d frames, %d violations" % (deep["stats"].get("deep_rounds", 0), deep["stats"].get("deep_frames", 0), len(deep.get("violations", []))))
+    # more streams opened than the accept queue holds before the application accepts (AcceptBacklog.tla: the receive loops wait)
+    la = lib.run_go(ctx, "multiplex", "TestVerifC01LateAcceptor", timeout=900, tag="late_acceptor")
+    lib.collect_go(ctx, la)
+    ctx.log("late acceptor: %d streams accepted and read to the end, %d violations" % (la["stats"].get("late_acceptor_streams", 0), len(la.get("violations", []))))
     # client.MakeSession's retry loop (spec/ClientSession.tla): every script of failed dials / failed handshakes, in a bubble
     beh = []
     for mode, br in (("direct", "chrome"), ("direct", "firefox"), ("direct", "safari")):
